@@ -160,6 +160,40 @@ func GenProperty(w *Writer, prop string, t Tier, seed uint64) error {
 				return e, g.Start
 			}},
 			dslashPredPlan(),
+			{fam: "multi-pred", doc: docDefault, gen: func(g *ExprGen, d *Doc, r *Rng) (Expr, int) {
+				// `P/T[boolean][positional]…` from SEVERAL context nodes: every predicate of the step is evaluated
+				// per context node, also when the first one does not look at positions (seeded change C02-8
+				// merged the candidates of all context nodes when the first predicate was a comparison)
+				g.Cfg.Preds = 0
+				base := Expr(Step{Base: Step{Base: Root{}, Axis: "descendant-or-self", Test: Test{Kind: "node"}}, Axis: "child", Test: Test{Kind: Pick(r, []string{"any", "node"})}})
+				if r.Chance(1, 3) {
+					base = g.NodeSet(1, false)
+				}
+				pos := Call{Base: Ctx{}, Name: "position"}
+				last := Call{Base: Ctx{}, Name: "last"}
+				dot := Step{Base: Ctx{}, Axis: "self", Test: Test{Kind: "node"}}
+				boolPred := Pick(r, []Expr{
+					Bin{Op: "ne", L: dot, R: Lit{S: "zz"}},
+					Bin{Op: "eq", L: Call{Base: Ctx{}, Name: "name"}, R: Call{Base: Ctx{}, Name: "name"}},
+					Bin{Op: "ge", L: Call{Base: Ctx{}, Name: "string-length"}, R: NumLit{Text: "0"}},
+					Bin{Op: "or", L: Step{Base: Ctx{}, Axis: "attribute", Test: Test{Kind: "any"}}, R: Call{Base: Ctx{}, Name: "true"}},
+					Bin{Op: "and", L: Call{Base: Ctx{}, Name: "true"}, R: Bin{Op: "ne", L: dot, R: Lit{S: "1"}}},
+					Bin{Op: "lt", L: Call{Base: Ctx{}, Name: "count", Args: []Expr{Step{Base: Ctx{}, Axis: "child", Test: Test{Kind: "node"}}}}, R: NumLit{Text: "9"}}})
+				posPred := Pick(r, []Expr{NumLit{Text: "1"}, NumLit{Text: "2"}, last, Bin{Op: "eq", L: pos, R: last}, Bin{Op: "lt", L: pos, R: NumLit{Text: "3"}}, Bin{Op: "sub", L: last, R: NumLit{Text: "1"}}})
+				ax := Pick(r, []string{"child", "child", "descendant", "following-sibling", "preceding-sibling", "ancestor", "attribute"})
+				preds := []Expr{boolPred, posPred}
+				if r.Chance(1, 4) {
+					preds = []Expr{boolPred, boolPred, posPred}
+				}
+				if r.Chance(1, 5) {
+					preds = []Expr{boolPred, posPred, NumLit{Text: "1"}}
+				}
+				var e Expr = Step{Base: base, Axis: ax, Test: Test{Kind: Pick(r, []string{"any", "node", "any"})}, Preds: preds}
+				if r.Chance(1, 3) {
+					e = Call{Base: Ctx{}, Name: "count", Args: []Expr{e}}
+				}
+				return e, 0
+			}},
 		})
 	case "C03":
 		return runEvalPlans(w, r, t, []evalPlan{
@@ -451,10 +485,10 @@ func GenProperty(w *Writer, prop string, t Tier, seed uint64) error {
 			{axes: SimpleAxes, fam: "nodefn", doc: func(r *Rng) DocCfg {
 				c := DefaultDocCfg()
 				c.Lang = true
-				if r.Chance(1, 4) {
+				if r.Chance(1, 3) {
 					// local names with white space around them (a JSON key may be any string): name() must
 					// agree with local-name() (seeded change C12-9 trimmed one of them)
-					c.NamePool = append(append([]string{}, c.NamePool...), " padded ", "\tid", "k ", " ")
+					c.NamePool = []string{" padded ", "\tid", "k ", " ", "a", "b", " a", "item "}
 				}
 				return c
 			}, gen: func(g *ExprGen, d *Doc, r *Rng) (Expr, int) {
